@@ -136,6 +136,15 @@ def check_r4c(eng, rep, cq, fi, summ, ename):
     is_machine = bool(types & mut_types)
     is_container_conv = fi.name.startswith("to_") and bool(types & {"dict", "list", "set"})
     if not (is_machine or is_container_conv):
+        # a result of a class without in-place API can still expose an operand's mutable part in a public field
+        if types & set(eng.prog.classes):
+            shared = shared_parts(eng, summ, mut_types)
+            if shared:
+                ev, l, field = shared[0]
+                rep.violation("R4c", "C19.R4c", fi.qname, "result-shares:%s" % field,
+                              "the object returned by %s is new, but its field `%s` is the operand's own mutable %s: "
+                              "mutating it through the result changes the source" % (ename, field, loc_str(l)),
+                              site=ev.site.to_json(), path=[ename])
         return
     if cq not in mut_types and not is_container_conv and not (set(eng.prog.classes[cq].mro) & set(MUTATORS)):
         # receiver class has no in-place API: aliasing its own parts cannot be observed through it (CFG.to_normal_form)
@@ -158,8 +167,56 @@ def check_r4c(eng, rep, cq, fi, summ, ename):
                           "conversion %s can return %s itself (not a fresh object): mutating the result changes the source"
                           % (ename, what), site=site, path=[ename])
     else:
-        rep.holds("R4c", "C19.R4c", fi.qname, "fresh-result:" + eng.prog.classes[cq].name,
-                  "every return path yields an object created during the call")
+        shared = shared_parts(eng, summ, mut_types)
+        if shared:
+            ev, l, field = shared[0]
+            rep.violation("R4c", "C19.R4c", fi.qname, "result-shares:%s" % field,
+                          "the object returned by %s is new, but its field `%s` is the operand's own mutable %s: mutating "
+                          "the result through its public API changes the source" % (ename, field, loc_str(l)),
+                          site=ev.site.to_json(), path=[ename])
+        else:
+            rep.holds("R4c", "C19.R4c", fi.qname, "fresh-result:" + eng.prog.classes[cq].name,
+                      "every return path yields an object created during the call, sharing no mutable part with an "
+                      "operand")
+
+
+def shared_parts(eng, summ, mut_types):
+    """Fields of the returned (fresh) object that are assigned an operand's own mutable sub-object - an object of a
+    class with a public in-place API, held in a field of an operand."""
+    roots = {l[0] for l in summ.ret.alias if l[0].startswith("fresh:")}
+    out = []
+    for ev, chain in summ.walk():
+        if ev.kind != "write" or ev.wkind != "attr" or ev.value is None:
+            continue
+        if not any(l[0] in roots and len(l[1]) == 1 for l in ev.target):
+            continue
+        tys = ev.value.types or frozenset()
+        if tys & mut_types:
+            for l in sorted(ev.value.alias):
+                if operand_root(l) and l[1] and l[1][-1] != "[]" and not cache_elems(l):
+                    out.append((ev, l, ev.attr))
+        # a new container whose elements are the operand's own mutable containers (shallow copy of a dict of sets)
+        el = ev.value.elem
+        for q in ev.value.quals:
+            if isinstance(q, tuple) and q[0] == "SHALLOW_COPY_OF" and operand_root(q[1]) and not cache_elems(q[1]):
+                inner = _stored_elem_types(eng, q[1])
+                if inner is None and el is not None:
+                    inner = el.types
+                if inner is not None and (inner & {"set", "list", "dict"}):
+                    out.append((ev, q[1], ev.attr + "[]"))
+    return out
+
+
+def _stored_elem_types(eng, l):
+    """Element types of the container stored in field l (from the field table of every class having that field)."""
+    if not l[1]:
+        return None
+    f = l[1][-1]
+    out = None
+    for (cq, fname), av in eng.interp.field_table.items():
+        if fname == f and av is not None and av.elem is not None and av.elem.types is not None:
+            out = (out or frozenset()) | av.elem.types
+    return out
 
 
 def _loc_is_mutable_machine(eng, cq, fi, l, is_container_conv):
